@@ -7,9 +7,9 @@ ID = "C03"
 LEVEL = "exploration"
 NEEDS = {"lib": ["dev", "release"]}
 RULE = ("hdk.derive(seed, path) events compared with an independent BIP-32 CKDpriv (HMAC-SHA512 + own secp256k1); seeds of "
-        "length 0..300, depth 1..12, indices 0 / 1 / 2^31-1 / byte-distinct patterns / random, hardened-normal mixes incl. "
+        "length 0..300, depth 1..12 and deep paths of 13..1025 components (around 16/32/64/128/256/512/1024), indices 0 / 1 / 2^31-1 / byte-distinct patterns / random, hardened-normal mixes incl. "
         "normal below hardened; distinct = distinct (seed, path); non-trivial = 32-byte key compared")
-REQUIRED = (["depth-%d" % d for d in range(1, 9)] + ["all-hardened", "all-normal", "normal-below-hardened", "hardened-below-normal",
+REQUIRED = (["depth-%d" % d for d in range(1, 9)] + ["depth-13..255", "depth>255"] + ["all-hardened", "all-normal", "normal-below-hardened", "hardened-below-normal",
             "index-0", "index-1", "index-2^31-1", "index-byte-distinct", "seedlen-16", "seedlen-32", "seedlen-64", "seedlen-other",
             "bip44-shape", "parent-key-1-zero-bytes", "parent-chaincode-1-zero-bytes", "parent-key-3-zero-bytes", "parent-chaincode-3-zero-bytes",
             "final-key-3-zero-bytes"])
@@ -56,6 +56,10 @@ def judge_derive(case, obs):
         if cz and lvl < d:
             v.bucket("parent-chaincode-%d-zero-bytes" % min(cz, 3))
     v.bucket("depth-%d" % d if d <= 8 else "depth-9+")
+    if d > 255:
+        v.bucket("depth>255")
+    elif d > 12:
+        v.bucket("depth-13..255")
     hs = [h for _, h in comps]
     if all(hs):
         v.bucket("all-hardened")
@@ -125,6 +129,13 @@ def gen(shard, rng, tier):
         for sd in RARE_MASTERS:
             for tail in ([(0, False)], [(0, True)], eth.default_path(0), [(rand_index(rng), rng.random() < 0.5) for _ in range(3)]):
                 yield from both(lib_case("derive", {"op": "hdk.derive", "seed": sd, "path": eth.format_path(tail)}, {"cls": "rare-node"}))
+    if shard.get("first"):
+        # very deep paths: the depth is unbounded in the path grammar (a counter, a depth byte or a fixed-size buffer in the
+        # implementation is not); mostly hardened levels so that the reference stays cheap
+        for depth in (13, 16, 17, 31, 32, 33, 63, 64, 65, 127, 128, 129, 254, 255, 256, 257, 300, 511, 512, 513, 1000, 1024, 1025):
+            seed = rand_bytes(rng, 64)
+            comps = [(rand_index(rng), rng.random() < (0.5 if depth <= 65 else 0.97)) for _ in range(depth)]
+            yield from both(lib_case("derive", {"op": "hdk.derive", "seed": seed.hex(), "path": eth.format_path(comps)}, {"cls": "deep-path"}))
     for _ in range(shard["count"]):
         if pool_seed and rng.random() < 0.3:
             seed = rng.choice(pool_seed)
